@@ -71,7 +71,7 @@ def append_mod(ws, module_file, mod_name, src_path):
     dst = os.path.join(hdir, os.path.basename(src_path))
     shutil.copyfile(src_path, dst)
     with open(mf, "a") as f:
-        f.write(f'\n#[cfg(kani)]\n#[path = "{dst}"]\nmod {mod_name};\n')
+        f.write(f'\n#[cfg(kani)]\n#[path = "{dst}"]\npub(crate) mod {mod_name};\n')
 
 
 def regex_patch(ws, file, pattern, repl, what):
@@ -330,7 +330,14 @@ def native_replay(ws, root, crate, fq, hname, harness_file_in_ws):
     rc, wall = run_kani(ws, PACKAGE_OF[crate], [fq], td, lp, 1800, mem_gb=20,
                         extra=["-Z", "concrete-playback", "--concrete-playback=print"])
     txt = open(lp, "rb").read().replace(b"\x00", b"").decode("utf-8", "replace")
-    pbs = [p for p in extract_playbacks(txt) if p[1] != "cover"]
+    seen = set()
+    pbs = []
+    existing = open(harness_file_in_ws).read()
+    for pb in extract_playbacks(txt):
+        if pb[1] == "cover" or pb[0] in seen or ("fn " + pb[0] + "(") in existing:
+            continue
+        seen.add(pb[0])
+        pbs.append(pb)
     if not pbs:
         return None, {"reason": "kani produced no concrete playback test for a failed check", "log": lp}
     with open(harness_file_in_ws, "a") as f:
